@@ -112,7 +112,10 @@ impl Scenario for C11 {
             }
             ids_local.push(v);
         }
-        let ids_canon: Vec<[u8; 32]> = (0..2).map(|a| canonical_token_id(chain, &iw.sc(&iw.assets[a]))).collect();
+        let mut ids_canon: Vec<[u8; 32]> = (0..2).map(|a| canonical_token_id(chain, &iw.sc(&iw.assets[a]))).collect();
+        // the third "asset" is the address of the service-deployed token (U0, salt 0): anybody may
+        // register it as a canonical token as well, which must not disturb the token's own id
+        ids_canon.push(canonical_token_id(chain, &iw.token_address_of(&ids_local[0][0])));
         all_ids.extend(ids_canon.iter().cloned());
         all_ids.push(R1);
         // a native seat behind every id of the universe, so that any deployment the code attempts
@@ -157,6 +160,9 @@ impl Scenario for C11 {
         }
         v.push(Act::RegisterCanonical(0));
         v.push(Act::RegisterCanonical(1));
+        if m.reg.contains_key(&_ctx.ids_local[0][0]) {
+            v.push(Act::RegisterCanonical(2));
+        }
         for id in 0..3u8 {
             for minter in 0..4u8 {
                 v.push(Act::RemoteDeploy { id, minter });
@@ -244,7 +250,8 @@ impl Scenario for C11 {
             }
             Act::RegisterCanonical(ai) => {
                 out.kind = "register_canonical";
-                let asset = &iw.assets[*ai];
+                let deployed = addr_from_sc(w, &iw.token_address_of(&ctx.ids_local[0][0]));
+                let asset = if *ai == 2 { &deployed } else { &iw.assets[*ai] };
                 let call = w.call(&iw.its, "register_canonical_token", &[asset.to_val()], Auth::Nobody);
                 let id = ctx.ids_canon[*ai];
                 let want = !m.reg.contains_key(&id);
@@ -391,7 +398,7 @@ fn main() {
         let s = C11 { thorough, chains: if thorough { vec!["stellar", "stellar-testnet"] } else { vec!["stellar"] } };
         let mut o = Opts::new(tier, if thorough { 5 } else { 3 });
         o.min_depth = 2;
-        o.rule = "histories over deploy_interchain_token (deployer U0/U1, 2 salts, supply 5/0/-1, minter none / third party / the deployer / the service itself / the all-zero account, 5 metadata shapes incl. decimals 255, 256, empty name, empty symbol, multi-byte; authorised by the deployer or by someone else), register_canonical_token (2 assets, repeated), remote deploy messages (short metadata / name and symbol longer than 32 bytes; fresh id, id of a local token, id of a canonical registration; minter none / valid / not XDR / XDR of a string); native seats behind all 7 ids. After every new state: token_address / token_manager_type of all 7 ids vs the write-once model; for every service-deployed token token_id, name, symbol, decimals, owner, deployer balance, is_minter for 5 universe addresses, and an approved inbound transfer executed on a snapshot; ids and addresses from independent keccak/XDR/sha256 derivations".into();
+        o.rule = "histories over deploy_interchain_token (deployer U0/U1, 2 salts, supply 5/0/-1, minter none / third party / the deployer / the service itself / the all-zero account, 5 metadata shapes incl. decimals 255, 256, empty name, empty symbol, multi-byte; authorised by the deployer or by someone else), register_canonical_token (2 assets, repeated, and the address of an already service-deployed token), remote deploy messages (short metadata / name and symbol longer than 32 bytes; fresh id, id of a local token, id of a canonical registration; minter none / valid / not XDR / XDR of a string); native seats behind all 8 ids. After every new state: token_address / token_manager_type of all 8 ids vs the write-once model; for every service-deployed token token_id, name, symbol, decimals, owner, deployer balance, is_minter for 5 universe addresses, and an approved inbound transfer executed on a snapshot; ids and addresses from independent keccak/XDR/sha256 derivations".into();
         (s, o)
     });
 }
